@@ -335,8 +335,10 @@ func ReadBlock(db DatabaseReader, hash common.Hash, number uint64) *types.Block 
 
 // WriteBlock serializes a block into the database, header and body separately.
 func WriteBlock(db DatabaseWriter, block *types.Block) {
-	WriteBody(db, block.Hash(), block.NumberU64(), block.Body())
+	// the body is what marks a block as known (HasBody): write it last, so that an interrupted
+	// write never leaves a known block without its header
 	WriteHeader(db, block.Header())
+	WriteBody(db, block.Hash(), block.NumberU64(), block.Body())
 }
 
 // DeleteBlock removes all block data associated with a hash.
